@@ -18,6 +18,8 @@ def run(ctx):
     if not q:
         ctx.model_check("Usm", "selftest_auth_flag_trusted", constants=dict(U.PINS, Attack=True, PinAuthFlagTrusted=True), invariants=U.INV_C09,
                         expect=["NoForgery", "ReportIsError"], timeout=2400)
+        ctx.model_check("Usm", "selftest_lazy_error_first", constants=dict(U.PINS, Attack=True, PinLazyErrorFirst=True), invariants=U.INV_C09,
+                        expect=["NoForgery"], timeout=2400)
     rnd = random.Random(ctx.seed)
     fams = []
     for level in ("auth", "authpriv"):
@@ -30,14 +32,18 @@ def run(ctx):
                     bits = list(range(nbits))                                                                   # every single-bit flip at every position
                 fams.append((level, h, op, list(drv_atk.STRUCT) + [("bitflip", b) for b in bits], False))
             fams.append((level, h, "get", ["digest_into_zero_run", "zero_digest", "swap_pdu_keep_mac"], True))
+            # the forgery arrives while another request of the same client is in flight, right after an authentic response was processed
+            fams.append((level, h, "overlap", [a for a in drv_atk.STRUCT if a not in ("digest_into_zero_run", "truncate_tail")], False))
     T = drv_atk.run_families(fams)
     ctx.evaluations += len(T)
     verdicts = ctx.validate("Trace_UsmAtk", T, chunk=4000, constants=dict(U.PINS, Attack=True), spec="TSpec")
     ctx.judge(T, verdicts, signature=sig, nontrivial=lambda tr, v: json.dumps(tr["scenario"]) if tr["events"][0]["ret"]["kind"] == "exc" else None, drift_index=2)
     ctx.rule = ("for MD5 / SHA-1 x authNoPriv / authPriv x {get, getnext, multiget, set, bulkget, walk}: %s of the authentic response plus %d structural "
                 "forgeries (flags 0/1/2/4/6 against the credentials, empty / short / zero / garbage digest, other user, other engine id, wrong localisation, "
-                "plaintext under privacy credentials, ciphertext without the flag, Reports with arbitrary or usmStats bindings, the digest copied over a zero run, "
-                "truncation, stale MAC with another PDU, another request id); after each attack an unattacked request must still succeed; "
+                "plaintext under privacy credentials, ciphertext without the flag, Reports with arbitrary or usmStats bindings, unauthenticated Responses / Reports whose PDU carries "
+                "error-status 2 or 5 (noSuchName is what ends a walk), the digest copied over a zero run, "
+                "truncation, stale MAC with another PDU, another request id); the structural forgeries also as the answer to the second of two requests in flight on one "
+                "client, delivered right after the authentic answer to the first was processed; after each attack an unattacked request must still succeed; "
                 "non-trivial = distinct attack that the client refused") % ("every single-bit flip at every position" if not q else "156 sampled single-bit flips (all of the first two octets)", len(drv_atk.STRUCT))
     ctx.exhaustive = not q
     ctx.assumptions = ["perfect MAC and cipher (Dolev-Yao): the attacker knows another user's keys but not the victim's",
@@ -48,5 +54,5 @@ def run(ctx):
 def replay(ctx, path):
     sc = json.load(open(path))["trace"]["scenario"]
     atk = (sc["attack"], sc["bit"]) if sc["attack"] == "bitflip" else sc["attack"]
-    T = drv_atk.run_families([(sc["level"], sc["hash"], sc["op"], [atk], sc["attack"] == "digest_into_zero_run")])
+    T = drv_atk.run_families([(sc["level"], sc["hash"], "overlap" if sc.get("overlap") else sc["op"], [atk], sc["attack"] == "digest_into_zero_run")])
     ctx.judge(T, ctx.validate("Trace_UsmAtk", T, constants=dict(U.PINS, Attack=True), spec="TSpec"), signature=sig)
